@@ -31,7 +31,7 @@ def run(ctx):
     ctx.rule = ('random (type, value) from the universe plus forced length boundaries (127/128, 255/256, 65535/65536, 1000/1001 octets); '
                 'DER and CER bytes compared with Spec.X690.der/cer evaluated in Coq; BER (definite, indefinite, chunked) and CER bytes '
                 'read back by Spec.X690.read; non-trivial = constructed/tagged type or a forced boundary')
-    cases = codec.gen_cases(ctx, ctx.n(150, 3000), depth=3)
+    cases = codec.gen_cases(ctx, ctx.n(150, 3000), depth=3, any_der=True)
     nrandom = len(cases)
     cases += boundary_cases(ctx)
     exprs, meta = [], []
